@@ -6,4 +6,5 @@ MCProg == (1 :> <<[api |-> "touch", key |-> "k", val |-> "", chunks |-> 0]>>) @@
           (2 :> <<[api |-> "put", key |-> "k", val |-> "b", chunks |-> 1]>>)
 MCPre == {}
 NoDebris == {}
+NoKeyShards == <<>>
 ====
